@@ -13,7 +13,9 @@
 #include "case.hpp"
 #include "explorer.hpp"
 
-#include <rapidcheck.h>
+#ifndef VF_NO_RC
+#  include <rapidcheck.h>
+#endif
 
 #include <chrono>
 #include <cstdio>
@@ -33,8 +35,10 @@ struct Family {
   virtual ~Family() = default;
   virtual const char* Name() const = 0;
   virtual const char* Property() const = 0;
+#ifndef VF_NO_RC
   // random generation; everything random must come from rapidcheck
   virtual rc::Gen<Case> Gen() const = 0;
+#endif
   // run one case; the explorer is already loaded with the case's tape (or is in DFS mode)
   virtual Verdict Run(const Case& c, Explorer& ex) = 0;
   virtual std::string Describe(const Case& c) const {
@@ -49,6 +53,7 @@ struct Family {
 };
 
 // ------------------------------------------------------------------------------------------------
+#ifndef VF_NO_RC
 // generators for the schedule tape (always resize-wrapped, see guidance)
 inline rc::Gen<std::vector<std::uint8_t>> GenTape(int max_len) {
   using namespace rc;
@@ -79,6 +84,8 @@ inline rc::Gen<std::vector<std::uint8_t>> GenTape(int max_len) {
 inline int Pick(int lo, int hi_excl) {  // inside gen::exec / property only
   return *rc::gen::resize(100, rc::gen::inRange(lo, hi_excl));
 }
+
+#endif
 
 // ------------------------------------------------------------------------------------------------
 struct Stats {
@@ -125,7 +132,7 @@ class Driver {
   }
 
   int Main(int argc, char** argv) {
-    std::string family, replay, out = ".";
+    std::string family, replay, replay_many, out = ".";
     std::uint64_t seed = 1;
     long cases = 1000;
     int max_size = 100, bound = 3, shard_i = 0, shard_n = 1, tier = 0;
@@ -149,6 +156,12 @@ class Driver {
         dfs = true;
       } else if (a == "--bound") {
         bound = std::atoi(next().c_str());
+      } else if (a == "--dump") {
+        _dump = next();
+      } else if (a == "--dump-only") {
+        _dump_only = true;
+      } else if (a == "--replay-many") {
+        replay_many = next();
       } else if (a == "--dfs-cap") {
         _dfs_cap = std::atol(next().c_str());
       } else if (a == "--tier") {
@@ -171,6 +184,11 @@ class Driver {
     }
     if (!replay.empty()) {
       return Replay(replay);
+    }
+    if (!replay_many.empty()) {
+      _out = out;
+      OpenLast();
+      return ReplayMany(replay_many);
     }
     Family* fam = Find(family);
     if (fam == nullptr) {
@@ -233,6 +251,51 @@ class Driver {
     return v.ok ? 0 : 3;
   }
 
+  // runs every case of a dump file (cases separated by "---" lines); no rapidcheck function is called on this path,
+  // so it is usable from a build with different container ABI (_GLIBCXX_DEBUG)
+  int ReplayMany(const std::string& path) {
+    std::ifstream in(path);
+    if (!in) {
+      std::fprintf(stderr, "cannot open %s\n", path.c_str());
+      return 2;
+    }
+    const auto t0 = std::chrono::steady_clock::now();
+    std::string line, text;
+    Family* fam = nullptr;
+    int rc_ = 0;
+    while (rc_ == 0 && std::getline(in, line)) {
+      if (line != "---") {
+        text += line + "\n";
+        continue;
+      }
+      Case c;
+      if (Case::Parse(text, c)) {
+        fam = Find(c.family);
+        if (fam == nullptr) {
+          return 2;
+        }
+        NoteLast(c);
+        Explorer ex;
+        ex.tape = c.tape;
+        Verdict v = fam->Run(c, ex);
+        Record(*fam, c, v);
+        if (!v.ok) {
+          ++_st.failures;
+          SaveFail(c, v);
+          std::printf("FAIL family=%s property=%s msg=%s case=%s/fail.case\n", fam->Name(), fam->Property(), v.msg.c_str(),
+                      _out.c_str());
+          rc_ = 3;
+        }
+      }
+      text.clear();
+    }
+    if (fam != nullptr) {
+      const double wall = std::chrono::duration<double>(std::chrono::steady_clock::now() - t0).count();
+      WriteStats(*fam, 0, wall, false, 0);
+    }
+    return rc_;
+  }
+
   void OpenLast() {
     std::string p = _out + "/last.case";
     _last_fd = ::open(p.c_str(), O_RDWR | O_CREAT | O_TRUNC, 0644);
@@ -290,6 +353,7 @@ class Driver {
     }
   }
 
+#ifndef VF_NO_RC
   int RunRandom(Family& fam, std::uint64_t seed, long cases, int max_size) {
     char params[256];
     std::snprintf(params, sizeof params, "seed=%llu max_success=%ld max_size=%d max_discard_ratio=20",
@@ -297,9 +361,19 @@ class Driver {
     ::setenv("RC_PARAMS", params, 1);
     bool failing = false;
     std::string fail_msg;
+    FILE* dump = _dump.empty() ? nullptr : std::fopen(_dump.c_str(), "w");
     const bool ok = rc::check(std::string("family ") + fam.Name(), [&]() {
       Case c = *fam.Gen();
       c.family = fam.Name();
+      if (dump != nullptr && !failing) {
+        const std::string t = c.Serialize();
+        std::fwrite(t.data(), 1, t.size(), dump);
+        std::fputs("---\n", dump);
+      }
+      if (_dump_only) {
+        ++_st.evaluations;
+        return;
+      }
       NoteLast(c);
       Explorer ex;
       ex.tape = c.tape;
@@ -317,6 +391,9 @@ class Driver {
         RC_FAIL(v.msg);
       }
     });
+    if (dump != nullptr) {
+      std::fclose(dump);
+    }
     if (!ok) {
       std::printf("FAIL family=%s property=%s msg=%s case=%s/fail.case\n", fam.Name(), fam.Property(),
                   fail_msg.c_str(), _out.c_str());
@@ -325,6 +402,13 @@ class Driver {
     }
     return 0;
   }
+
+#else
+  int RunRandom(Family&, std::uint64_t, long, int) {
+    std::fprintf(stderr, "this build has no generator (VF_NO_RC): use --replay / --replay-many / --dfs\n");
+    return 2;
+  }
+#endif
 
   int RunDfs(Family& fam, int bound, int tier, int shard_i, int shard_n) {
     auto programs = fam.DfsPrograms(tier);
@@ -412,6 +496,8 @@ class Driver {
 
   static constexpr std::size_t kLastSize = 1 << 16;
   long _dfs_cap = 400000;
+  std::string _dump;
+  bool _dump_only = false;
   std::vector<Family*> _fams;
   std::string _out;
   Stats _st;
